@@ -176,7 +176,7 @@ def run(ctx):
     if not viols:
         cp.oracle_selftest(ctx, ts, "ConfParseTrace.cfg", True)
     _report(ctx, ts, viols, setup)
-    if missing and not ctx.violations:
+    if missing and not (ctx.violations or ctx.known_hits):
         raise core.MachineryError("%d cases produced no output (harness died?), e.g. %s" % (len(missing), missing[:3]))
     # evidence
     files = set()
